@@ -12,8 +12,11 @@ RULE = ("scripts against the real sche.MultiSelector/Sche driven step by step: 1
         "dead selector dropped, double registration, Post after Stop, 9/10/11 registrations without the consumer running, the selector layout of a service); "
         "exhaustive: every sequence of length <= 3 (quick) / 5 (thorough) over {AddSelector x2, send x2, close, HandleOnce} on two channels; "
         "random: 4-80 ops (sends incl. on closed/full channels, HandleOnce, AddSelector while running incl. bursts of 9-13, close, bad ids), followed by HandleOnce until idle; "
-        "measurement: 12 (quick) / 150 (thorough) OStress cases on a running instrumented NodeService with concurrent producers of all 11 work kinds "
+        "measurement: 16 (quick) / 150 (thorough) OStress cases, each in a child process, on a running instrumented NodeService with concurrent producers of all 11 work kinds "
         "(1-3 requesting services, 1-4 timer goroutines, 8 posters, 1-3 publishers of local+global events, 1-6 fake client connections; every third case with 1-12 requests timing out through the virtual clock; "
+        "3 of 8 cases start with an OVERFLOW phase: the service is held inside a handler while foreign goroutines produce 1000-2200 items of the kinds with a bounded queue (local or global events, posted closures, timers, session messages: capacity 999) "
+        "and 200-1300 requests - producers must block (global events: be dropped), nothing may run off the held loop goroutine, after the release everything accepted is executed; "
+        "1 of 8 cases first crashes the service actor (handler panic -> supervisor restart -> producer runs again), 1 of 8 spawns the same props twice (two actors on one run service); "
         "every fifth case a lopsided single-kind mix). Non-trivial = a user handler ran at least once (scripts) / any stress case; distinct = distinct annotated op lists.")
 TRUSTED_BASE = [
     "Coq 8.16.1 kernel + vm_compute (case evaluation, Examples); no native_compute",
@@ -22,11 +25,13 @@ TRUSTED_BASE = [
     "Go harness harness/c04: white-box read of MultiSelector.{dirty,selectors,cases,runnings,chanDirt} through reflect/unsafe (breaks loudly if a field is renamed); "
     "values tagged with the channel they were sent on; HandleOnce is only called when the real bookkeeping says some case is ready, every call under a 2 s watchdog; bin/check.py term printer",
     "measurement: goroutine id parsed from runtime.Stack + 'runservice.(*RunService).loop' in the goroutine's stack; reference goroutine obtained from a selector added to the service's own MultiSelector; "
-    "atomic in-flight counter held for ~15us + Gosched at every entry point (overlap detection is probabilistic, goroutine identity is deterministic)",
+    "atomic in-flight counter held for ~15us + Gosched at every entry point (overlap detection is probabilistic, goroutine identity is deterministic); "
+    "a measurement whose process dies (e.g. 'fatal error: concurrent map writes' in the service's own unsynchronised state) is reported as EPanic and fails the monitor",
     "modelled not verified: Go channels (FIFO, close semantics, reflect.Select picks SOME ready case - the harness reports which), sync.Mutex sections as atomic steps, "
     "protoactor (mailbox -> Dispatcher.Schedule), time.AfterFunc, the Go scheduler; fairness of reflect.Select is NOT assumed by any theorem",
 ]
 ASSUMPTIONS = [
+    "not overflowed: scheDisp.chanTask (capacity 9) - a mailbox has at most one scheduled run pending, so one or two actors cannot fill it; requests pile up in the unbounded mailbox instead",
     "HandleOnce is called from one goroutine only (runservice.RunService.loop is the only caller); Examples C04_two_consumers_* show what breaks otherwise",
     "handlers do not themselves close or re-register channels in the model (they are opaque: they record the value)",
     "progress theorem C04_no_task_lost: producers are quiescent while the consumer drains; under never-ending production eventual handling needs fairness of reflect.Select (not proved)",
